@@ -16,12 +16,16 @@
 (*   k = "R" RolloverTopic{name: t, new_leader: n, sealed_segment_entry_count: c}       *)
 (*   k = "U" UpsertNode{node_id: n, addr: a}                                            *)
 (*   k = "X" bytes that do not decode to a MetadataCmd                                   *)
+(* A rollover whose count would carry the cumulative sealed offset past u64::MAX (MaxU64)  *)
+(* is rejected with the topic unchanged (metadata.rs, checked_add).                        *)
 (* `Apply(s, cmd)` is total: it yields the returned value and the next state, as the     *)
 (* `apply` of the StateMachineTrait does. The state machine is its own contract (A = B): *)
 (* the property C18 is the list of invariants below, C20's state-machine half is         *)
 (* `SnapshotRoundTrip`.                                                                 *)
 (***************************************************************************************)
 EXTENDS Naturals, Sequences, FiniteSets
+
+CONSTANT MaxU64   \* u64::MAX; a small number in the bounded models so that the rejecting branch is explored
 
 EmptyMap == [x \in {} |-> 0]
 Put(f, k, v) == [x \in (DOMAIN f) \cup {k} |-> IF x = k THEN v ELSE f[x]]
@@ -30,12 +34,15 @@ EmptyState == [topics |-> EmptyMap, nodes |-> EmptyMap]
 
 NewTopic(n) == [cur |-> 1, leader |-> n, last |-> 0, sealed |-> EmptyMap, segl |-> Put(EmptyMap, 1, n)]
 
-(* metadata.rs:150-167, in statement order *)
+(* let new_offset = last_sealed_entry_offset.checked_add(count) -- None: the command is rejected *)
+Overflows(ts, c) == ts.last + c > MaxU64
+
+(* the rollover branch of apply, in statement order *)
 Rolled(ts, n, c) ==
   LET sealedSeg == ts.cur
       sealed1   == Put(ts.sealed, sealedSeg, c)           \* sealed_segments.insert(sealed_seg, count)
       segl1     == Put(ts.segl, sealedSeg, ts.leader)     \* segment_leaders.insert(sealed_seg, leader_node)
-      last1     == ts.last + c                            \* last_sealed_entry_offset += count
+      last1     == ts.last + c                            \* last_sealed_entry_offset = new_offset
       cur1      == ts.cur + 1                             \* current_segment += 1
       segl2     == Put(segl1, cur1, n)                    \* segment_leaders.insert(current_segment, new_leader)
   IN [cur |-> cur1, leader |-> n, last |-> last1, sealed |-> sealed1, segl |-> segl2]
@@ -45,12 +52,12 @@ Apply(s, cmd) ==
     [] cmd.k = "C" -> IF cmd.t \in DOMAIN s.topics
                       THEN [res |-> "EXISTS", st |-> s]
                       ELSE [res |-> "CREATED", st |-> [s EXCEPT !.topics = Put(@, cmd.t, NewTopic(cmd.n))]]
-    [] cmd.k = "R" -> IF cmd.t \in DOMAIN s.topics
-                      THEN [res |-> "ROLLED", st |-> [s EXCEPT !.topics = Put(@, cmd.t, Rolled(s.topics[cmd.t], cmd.n, cmd.c))]]
-                      ELSE [res |-> "ERR_NOTOPIC", st |-> s]
+    [] cmd.k = "R" -> IF cmd.t \notin DOMAIN s.topics THEN [res |-> "ERR_NOTOPIC", st |-> s]
+                      ELSE IF Overflows(s.topics[cmd.t], cmd.c) THEN [res |-> "ERR_OVERFLOW", st |-> s]   \* nothing changed yet
+                      ELSE [res |-> "ROLLED", st |-> [s EXCEPT !.topics = Put(@, cmd.t, Rolled(s.topics[cmd.t], cmd.n, cmd.c))]]
     [] cmd.k = "U" -> [res |-> "NODE", st |-> [s EXCEPT !.nodes = Put(@, cmd.n, cmd.a)]]
 
-Results == {"ERR_DECODE", "EXISTS", "CREATED", "ROLLED", "ERR_NOTOPIC", "NODE"}
+Results == {"ERR_DECODE", "EXISTS", "CREATED", "ROLLED", "ERR_NOTOPIC", "ERR_OVERFLOW", "NODE"}
 
 (* ---- snapshot / restore: the snapshot is the association lists bincode writes ---- *)
 Pairs(f) == {<<x, f[x]>> : x \in DOMAIN f}
@@ -80,6 +87,7 @@ TopicOK(ts) ==
   /\ ts.segl[ts.cur] = ts.leader                     \* leader of the open segment is the topic leader
   /\ DOMAIN ts.sealed = 1 .. (ts.cur - 1)            \* exactly the segments below the open one are sealed
   /\ ts.last = SumOver(ts.sealed, DOMAIN ts.sealed)  \* cumulative sealed offset = sum of sealed counts
+  /\ ts.last <= MaxU64                               \* ... as a number, not modulo 2^64
 
 InvSegments == \A t \in DOMAIN st.topics : TopicOK(st.topics[t])
 
